@@ -50,6 +50,11 @@ def streams(ctx):
     # inside the header, the extended length and the payload)
     for ln in (65535, 65536, 70000):
         out.append([F(2, rx.payload(rnd, ln, "bin")), F(1, b"after")])
+    # a length of ZERO written in the extended forms, masked: every field of the header is present and is read once, also when
+    # a timeout falls between any two of them
+    for form in (16, 64):
+        out.append([F(1, b"", mask=b"\x81\x01\x58\x00", form=form), F(1, b"X", mask=b"abcd"), F(2, b"\x00")])
+        out.append([F(9, b"", mask=b"\x8a\x00\x82\x00", form=form), F(2, b"yz", fin=0, form=form), F(0, b"", fin=1, mask=b"\x00\x00\x00\x01", form=form)])
     out.append([F(1, rx.payload(rnd, 40000, "utf8"), fin=0), F(9, b"p"), F(0, rx.payload(rnd, 66000, "utf8")), F(2, b"after")])
     return out
 
@@ -113,44 +118,48 @@ def run_handshake_boundary(ctx):
     key_raw = bytes(range(16))
     key = base64.b64encode(key_raw).decode()
     accept = base64.b64encode(hashlib.sha1((key + "258EAFA5-E914-47DA-95CA-C5AB0DC85B11").encode()).digest()).decode()
-    head = (f"HTTP/1.1 101 Switching Protocols\r\nUpgrade: websocket\r\nConnection: Upgrade\r\n"
-            f"Sec-WebSocket-Accept: {accept}\r\n\r\n").encode()
+    head_crlf = (f"HTTP/1.1 101 Switching Protocols\r\nUpgrade: websocket\r\nConnection: Upgrade\r\n"
+                 f"Sec-WebSocket-Accept: {accept}\r\n\r\n").encode()
     frames = [F(1, b"hello"), F(9, b"pp"), F(2, b"\x00\x01", fin=0), F(0, b"\x02")]
     tail = b"".join(f.enc() for f in frames)
-    stream = head + tail
-    base = None
-    n = len(stream)
-    cuts_list = [[]] + [[c] for c in range(1, n)] + [sorted(rnd.sample(range(1, n), 3)) for _ in range(40 if ctx.thorough() else 10)]
-    cuts_list.append(list(range(1, n)))
     old = os.urandom
-    for cuts in cuts_list:
-        pts = [0] + cuts + [n]
-        ev = [("chunk", stream[a:b]) for a, b in zip(pts, pts[1:])]
-        sock = simnet.SimSocket(ev)
-        ws = websocket.WebSocket()
-        ws.set_mask_key(lambda k: b"\x00" * k)
-        os.urandom = lambda k: key_raw[:k]
-        try:
-            obs = []
-            try:
-                ws.connect("ws://example.test/chat", socket=sock)
-                obs.append("connected")
-                for _ in range(3):
-                    r = ws.recv()
-                    obs.append(r if isinstance(r, str) else r.hex())
-            except Exception as e:  # noqa
-                obs.append("X:" + common.canon_exc(e))
-        finally:
-            os.urandom = old
-        obs.append(bytes(sock.sent)[-8:].hex())
-        ctx.case(key=("hs", tuple(cuts)), nontrivial=bool(cuts), cls="handshake-boundary:cuts=" + str(min(len(cuts), 4)))
-        if base is None:
-            base = obs
-            want = ["connected", "hello", "000102", "X:CLOSED"]
-            if obs[:4] != want:
-                ctx.violate("handshake-boundary", "frames-after-101-misparsed", {"op": "connect+recv", "cuts": cuts}, want, obs, size=1)
-        elif obs != base:
-            ctx.violate("handshake-boundary", "depends-on-segmentation", {"op": "connect+recv", "cuts": cuts}, base, obs, size=len(cuts))
+    # the response head as servers usually write it (CRLF) and with bare LF line ends (which the reader accepts: the blank
+    # line is then ONE byte long) — the first frame starts right behind it either way
+    for head in (head_crlf, head_crlf.replace(b"\r\n", b"\n")):
+      stream = head + tail
+      base = None
+      n = len(stream)
+      cuts_list = [[]] + [[c] for c in range(1, n)] + [sorted(rnd.sample(range(1, n), 3)) for _ in range(40 if ctx.thorough() else 10)]
+      cuts_list.append(list(range(1, n)))
+      for cuts in cuts_list:
+          pts = [0] + cuts + [n]
+          ev = [("chunk", stream[a:b]) for a, b in zip(pts, pts[1:])]
+          sock = simnet.SimSocket(ev)
+          ws = websocket.WebSocket()
+          ws.set_mask_key(lambda k: b"\x00" * k)
+          os.urandom = lambda k: key_raw[:k]
+          try:
+              obs = []
+              try:
+                  ws.connect("ws://example.test/chat", socket=sock)
+                  obs.append("connected")
+                  for _ in range(3):
+                      r = ws.recv()
+                      obs.append(r if isinstance(r, str) else r.hex())
+              except Exception as e:  # noqa
+                  obs.append("X:" + common.canon_exc(e))
+          finally:
+              os.urandom = old
+          obs.append(bytes(sock.sent)[-8:].hex())
+          ctx.case(key=("hs", len(head), tuple(cuts)), nontrivial=bool(cuts),
+                   cls=f"handshake-boundary:{'crlf' if head is head_crlf else 'lf'}:cuts=" + str(min(len(cuts), 4)))
+          if base is None:
+              base = obs
+              want = ["connected", "hello", "000102", "X:CLOSED"]
+              if obs[:4] != want:
+                  ctx.violate("handshake-boundary", "frames-after-101-misparsed", {"op": "connect+recv", "cuts": cuts}, want, obs, size=1)
+          elif obs != base:
+              ctx.violate("handshake-boundary", "depends-on-segmentation", {"op": "connect+recv", "cuts": cuts}, base, obs, size=len(cuts))
 
 
 def run(ctx):
